@@ -113,23 +113,24 @@ theorem lineSearch_good (P : Problem α) (dir : Direction D α) (pr : Params α)
         rw [hpass] at hp
         exact ih s' hp.1 (by rw [hp.2, hf])
 
-theorem initQub_good (P : Problem α) (pr : Params α) (f : Nat) (c : Iterate α) (t b : Nat)
-    (h : Good P pr c) : Good P pr (initQub P pr f c t b).1 := by
+theorem initQub_good (P : Problem α) (pr : Params α) (stop : Nat → Bool) (f : Nat) (c : Iterate α)
+    (t b : Nat) (h : Good P pr c) : Good P pr (initQub P pr stop f c t b).1 := by
   induction f generalizing c t b with
   | zero => simpa [initQub] using h
   | succ f ih =>
     unfold initQub
     split_ifs
+    · exact h
     · exact ih _ _ _ (good_evalStep P pr _)
     · exact h
 
-theorem initState_good (P : Problem α) (d0 : D) (pr : Params α) (x0 gV : Vec α) (gS : α)
-    (s : St α D) (h : initState P d0 pr x0 gV gS = .inr s) : Good P pr s.curr := by
+theorem initState_good (P : Problem α) (d0 : D) (pr : Params α) (stop : Nat → Bool) (x0 gV : Vec α)
+    (gS : α) (s : St α D) (h : initState P d0 pr stop x0 gV gS = .inr s) : Good P pr s.curr := by
   unfold initState at h
   simp only [] at h
   split_ifs at h
   all_goals first
-    | (injection h with h; subst h; exact initQub_good P pr _ _ _ _ (good_evalStep P pr _))
+    | (injection h with h; subst h; exact initQub_good P pr stop _ _ _ _ (good_evalStep P pr _))
     | (exact absurd h (by simp))
 
 /-! ### Main loop -/
